@@ -177,6 +177,16 @@ func main() {
 			lab := col.ToLAB(ciexyz.ColorFromXYY(a))
 			back := ciexyz.ColorFromLAB(lab, ciexyz.ColorFromXYY(b))
 			mix(lab.L, lab.A, lab.B, back.X, back.Y, back.Z)
+			// a burst of conversions against this goroutine's own white while the others use theirs: anything
+			// remembered per white point and shared between goroutines is hit thousands of times
+			own := ciexyz.ColorFromXYY(whites[g%len(whites)])
+			for k := 0; k < 48; k++ {
+				c2 := ciexyz.Color{X: col.X + float32(k)/100, Y: col.Y, Z: col.Z}
+				l2 := c2.ToLAB(own)
+				b2 := ciexyz.ColorFromLAB(l2, own)
+				v2 := ciexyz.AdaptBetweenXYZWhitePoints(own, ciexyz.ColorFromXYY(whites[(g+1)%len(whites)])).Apply(c2)
+				mix(l2.L, l2.A, l2.B, b2.X, b2.Y, b2.Z, v2.X, v2.Y, v2.Z)
+			}
 			if it%50 == 49 {
 				out = append(out, res{fmt.Sprintf("colour-math iterations %d..%d", it-49, it), h})
 			}
